@@ -68,7 +68,7 @@ def harness_line(c): return c
 def case_of_line(l): return l
 def coq_term(c):
     if c.startswith("dev "):      # the full-stack model only (the operation-level one is C13/C15/C16's)
-        return "run_dev2 " + coq_list([statuslib.step_to_coq2(s) for s in c.split(" ", 1)[1].split("|") if s])
+        return "run_dev2 " + coq_list([statuslib.step_to_coq2(s) for s in statuslib.resolve_keep([s for s in c.split(" ", 1)[1].split("|") if s])])
     return treegen.coq_term(c)
 
 
